@@ -80,6 +80,7 @@ def run(ctx):
                               "c05_profile_exact", "c05_profile_save", "c05_profile_order", "c05_profile_users", "c05_like_lookup_refuted",
                               "c05_old_poll_refuted", "c05_old_totp_replay_refuted", "c05_old_challenge_refuted", "c05_old_cert_cookie_refuted",
                               "c05_cookie_expired", "c05_first_cookie_refuted", "c05_old_vip_expiry_refuted",
+                              "c05_login_mints_password_only", "c05_login_mints_password_only_any", "c05_login_ignores_attached", "c05_login_carry_refuted",
                               "c05_failed_attempt_pure", "c05_failed_attempt_commutes",
                               "c05_address_irrelevant", "c05_address_run", "c05_totp_guard_once", "c05_totp_guard_once_nth", "c05_totp_guard_is_session", "c05_guard_by_address_refuted"])],
         harness=("TestVerif_C05", ["kmd/common.go", "kmd/creds.go", "kmd/consts.go", "kmd/c05.go", "kmd/c05conc.go", "kmd/c16.go", "kmd/c16_stall.go"]),
